@@ -185,9 +185,19 @@ def match_known(prop, entries, prop_id, clause, plan):
 
 # ------------------------------------------------------------------ replay
 
+def _prepare_parent(prop):
+    """Bring the zygote into its final state before anything is forked from it."""
+    import gc
+    if hasattr(prop, "prepare_parent"):
+        prop.prepare_parent()      # e.g. warm up the CBC shared library (not through prtpy)
+    gc.collect()
+    gc.freeze()                    # children never finalise garbage inherited from the parent
+
+
 def do_replay(prop_id, path):
     import_tree_under_test()
     prop = load_prop(prop_id)
+    _prepare_parent(prop)
     rp = json.load(open(path))
     plan = rp["plan"]
     clause = rp.get("clause")
@@ -230,8 +240,7 @@ def do_batch(prop_id, tier, batch_seed, jobs, runs_override=None, budget_overrid
         cfg["runs"] = runs_override
     if budget_override:
         cfg["wall_cap_s"] = budget_override
-    if hasattr(prop, "prepare_parent"):
-        prop.prepare_parent()      # e.g. warm up the CBC shared library before any fork
+    _prepare_parent(prop)
     runs = cfg["runs"]
     chunk = cfg.get("chunk", 4)
     wall_cap = cfg.get("wall_cap_s", 3600)
